@@ -2,7 +2,11 @@ use parking_lot::RwLock;
 use std::collections::{hash_map::RandomState, HashMap};
 use std::hash::BuildHasher;
 use std::ops::{Deref, DerefMut};
-use std::time::{Duration, SystemTime, UNIX_EPOCH};
+use std::time::Duration;
+#[cfg(not(transparencies_stretto_verif))]
+use std::time::{SystemTime, UNIX_EPOCH};
+#[cfg(transparencies_stretto_verif)]
+use crate::verif::clock::{SystemTime, UNIX_EPOCH};
 
 use crate::CacheError;
 
@@ -215,3 +219,57 @@ impl<S: BuildHasher + Clone + 'static> ExpirationMap<S> {
 unsafe impl<S: BuildHasher + Clone + 'static> Send for ExpirationMap<S> {}
 
 unsafe impl<S: BuildHasher + Clone + 'static> Sync for ExpirationMap<S> {}
+
+#[cfg(transparencies_stretto_verif)]
+impl Time {
+    /// (ttl in ns, created-at in ns since the epoch)
+    pub(crate) fn verif_parts(&self) -> (u128, u128) {
+        (
+            self.d.as_nanos(),
+            self.created_at
+                .duration_since(UNIX_EPOCH)
+                .map_or(0, |d| d.as_nanos()),
+        )
+    }
+
+    pub(crate) fn verif_from_parts(d_ns: u128, created_ns: u128) -> Self {
+        fn dur(ns: u128) -> Duration {
+            Duration::new((ns / 1_000_000_000) as u64, (ns % 1_000_000_000) as u32)
+        }
+        let saved = crate::verif::clock::manual_now();
+        crate::verif::clock::set_manual(created_ns as u64);
+        let created_at = SystemTime::now();
+        crate::verif::clock::set_manual(saved);
+        Self {
+            d: dur(d_ns),
+            created_at,
+        }
+    }
+}
+
+#[cfg(transparencies_stretto_verif)]
+pub(crate) fn verif_storage_bucket(t: Time) -> i64 {
+    storage_bucket(t)
+}
+
+#[cfg(transparencies_stretto_verif)]
+pub(crate) fn verif_cleanup_bucket(t: Time) -> i64 {
+    cleanup_bucket(t)
+}
+
+#[cfg(transparencies_stretto_verif)]
+impl<S: BuildHasher + Clone + 'static> ExpirationMap<S> {
+    pub(crate) fn verif_buckets(&self) -> Vec<(i64, Vec<(u64, u64)>)> {
+        let m = self.buckets.read();
+        let mut out: Vec<(i64, Vec<(u64, u64)>)> = m
+            .iter()
+            .map(|(b, bucket)| {
+                let mut v: Vec<(u64, u64)> = bucket.map.iter().map(|(k, c)| (*k, *c)).collect();
+                v.sort();
+                (*b, v)
+            })
+            .collect();
+        out.sort();
+        out
+    }
+}
